@@ -8,7 +8,9 @@ parts:  il       hand-written IL files with known output (tests/il2c/il/*.qbe + 
                  against gcc directly on the same C (stdout and exit status identical)
         interop  struct passing/returning between cproc-compiled and gcc-compiled code
         stage2   self-hosting smoke test (the compiler compiled by itself through il2c)
-default: all.  Everything happens in a fresh directory under /tmp that is removed at exit.
+        mutants  (not in the default set) mutate the semantics table of il2c one entry at a time and
+                 require that the 'il' or 'progs' part notices: a check of the tests, not of il2c
+default: all but mutants.  Everything happens in a fresh directory under /tmp that is removed at exit.
 """
 import argparse
 import concurrent.futures as cf
@@ -40,6 +42,8 @@ CONFIGS = [
 
 
 class Results:
+    quiet = False
+
     def __init__(self):
         self.npass = self.nfail = 0
         self.fails = []
@@ -50,7 +54,8 @@ class Results:
     def fail(self, name, why):
         self.nfail += 1
         self.fails.append((name, why))
-        print('FAIL %s: %s' % (name, why.rstrip()[-1500:]), flush=True)
+        if not self.quiet:
+            print('FAIL %s: %s' % (name, why.rstrip()[-1500:]), flush=True)
 
     def check(self, cond, name, why=''):
         if cond:
@@ -101,6 +106,11 @@ def cproc(pp_text, target=None):
     return must(cmd, inp=pp_text).decode('latin-1')
 
 
+def say(msg):
+    if not R.quiet:
+        print(msg, flush=True)
+
+
 def pmap(fn, items, jobs):
     with cf.ThreadPoolExecutor(max_workers=jobs) as ex:
         return list(ex.map(fn, items))
@@ -133,7 +143,7 @@ def part_repo(jobs):
             R.check(err is None, 'repo/' + name, err or '')
         n += 1
     R.check(n >= 150, 'repo/count', 'only %d .qbe files found' % n)
-    print('repo: %d IL files translated and compiled with 3 compiler configurations' % n, flush=True)
+    say('repo: %d IL files translated and compiled with 3 compiler configurations' % n)
 
 
 # ---------------------------------------------------------------------------
@@ -180,7 +190,7 @@ def part_il(jobs):
                 rc, so, se = o
                 R.check(rc == 0 and so == exp, 'il/%s:%s' % (b, cname),
                         'rc=%s\n--- expected\n%s--- got\n%s--- stderr\n%s' % (rc, exp.decode(), so.decode(errors='replace'), se.decode(errors='replace')[-800:]))
-    print('il: %d hand-written IL files' % len(files), flush=True)
+    say('il: %d hand-written IL files' % len(files))
 
 
 # ---------------------------------------------------------------------------
@@ -244,6 +254,36 @@ export function w $entry(w %a.b, w %a_b, w %a_d) {
     open(os.path.join(d, 'odd.c'), 'w').write(T(odd))
     rc, _, err = run(['gcc', '-c', '-w', os.path.join(d, 'odd.c'), '-o', os.path.join(d, 'odd.o')])
     R.check(rc == 0, 'api/fall-off-end-compiles', err.decode())
+    # ASan sees overflows of alloc'd objects: fixed local (start block), alloca (in a loop), dynamic size
+    for nm, body in [
+        ('asan-alloc-start', '@s\n\t%p =l alloc4 12\n\t%q =l add %p, 12\n\tstoreb 1, %q\n\tret 0\n'),
+        ('asan-alloc-loop', '@s\n\t%i =w copy 0\n@l\n\t%p =l alloc8 24\n\t%q =l add %p, 24\n\t%ii =l extuw %i\n\t%q =l add %q, %ii\n\tstorew 1, %q\n\t%i =w add %i, 1\n\t%c =w cultw %i, 2\n\tjnz %c, @l, @e\n@e\n\tret 0\n'),
+        ('asan-alloc-dyn', '@s\n\t%n =l extuw %argc\n\t%n =l mul %n, 10\n\t%p =l alloc16 %n\n\t%q =l add %p, %n\n\t%v =w loadub %q\n\tret %v\n'),
+        ('asan-data', '@s\n\t%q =l add $obj, 5\n\t%v =w loadub %q\n\tret %v\n'),
+    ]:
+        text = 'data $obj = { b 1 2 3 4 5 }\nexport function w $main(w %argc, l %argv) {\n' + body + '}\n'
+        cfile = os.path.join(d, nm + '.c')
+        open(cfile, 'w').write(T(text, export_map={'main': 'main'}))
+        for cc in ('gcc', 'clang'):
+            exe = os.path.join(d, nm + '.' + cc)
+            rc, _, err = run([cc, '-O0', '-w', '-fsanitize=address', cfile, '-o', exe])
+            if not R.check(rc == 0, 'api/%s:%s:compile' % (nm, cc), err.decode()):
+                continue
+            rc, _, err = run([exe], env=SAN_ENV)
+            R.check(rc != 0 and b'AddressSanitizer' in err and b'overflow' in err, 'api/%s:%s' % (nm, cc), 'rc=%r %s' % (rc, err.decode()[:300]))
+    # linkage odds and ends: section, dbgloc/dbgfile, external thread-local, default data alignment
+    text = ('dbgfile "x.c"\nexport section ".data.il2c" data $sec = align 4 { w 1 }\nsection ".text.il2c" "ax" function w $f() {\n@s\n\tdbgloc 3\n'
+            '\t%a =w loadw thread $ext_tls\n\t%b =w loadw $sec\n\t%c =w add %a, %b\n\tret %c\n}\n')
+    try:
+        c = T(text)
+        open(os.path.join(d, 'link.c'), 'w').write(c)
+        ok = 'section(".data.il2c")' in c and 'extern __thread' in c
+        for cc in ('gcc', 'clang'):
+            rc, _, err = run([cc, '-c', '-w', os.path.join(d, 'link.c'), '-o', os.path.join(d, 'link.o')])
+            ok = ok and rc == 0
+        R.check(ok, 'api/linkage-misc', c[-600:] + err.decode())
+    except Exception as e:
+        R.fail('api/linkage-misc', repr(e))
     # speed: a 30k-line module (one big function + many small ones + data)
     lines = ['export function w $big(w %a) {', '@start', '\t%p =l alloc8 64', '\t%v0 =w copy %a']
     n = 0
@@ -274,7 +314,7 @@ export function w $entry(w %a.b, w %a_b, w %a_d) {
         v = ((v + i) * 3) & 0xffffffff
     rc, so, _ = run([os.path.join(d, 'big')])
     R.check(rc == 0 and so.strip() == str(v).encode(), 'api/big-runs', '%r vs %d' % (so, v))
-    print('api: %d-line module translated in %.2f s, gcc -O0 %.1f s' % (nl, dt, dt2), flush=True)
+    say('api: %d-line module translated in %.2f s, gcc -O0 %.1f s' % (nl, dt, dt2))
 
 
 # ---------------------------------------------------------------------------
@@ -317,7 +357,7 @@ def part_progs(jobs):
             if (rc, so) != ref:
                 why = 'exit status %r vs reference %r; ' % (rc, ref[0]) + first_diff(ref[1], so) + '\nstderr: ' + se.decode(errors='replace')[-1200:]
             R.check((rc, so) == ref, 'progs/%s:%s' % (b, cname), why)
-    print('progs: %d programs x %d configurations' % (len(files), len(CONFIGS)), flush=True)
+    say('progs: %d programs x %d configurations' % (len(files), len(CONFIGS)))
     return len(files)
 
 
@@ -396,14 +436,12 @@ def part_interop(jobs):
                 why = 'rc %r vs %r; %s\nstderr: %s' % (rc, ref[0], first_diff(ref[1], so), se.decode(errors='replace')[-1200:])
             R.check((rc, so) == ref[:2], 'interop/%s:%s' % (name, tag), why)
             total += 1
-    print('interop: %d units, %d mixed executables compared with the all-gcc build' % (len(units), total), flush=True)
+    say('interop: %d units, %d mixed executables compared with the all-gcc build' % (len(units), total))
 
 
 # ---------------------------------------------------------------------------
 STAGE2_SRCS = 'attr decl eval expr init main map pp scan scope stmt targ token tree type utf util qbe'.split()
-STAGE2_INPUTS = ['hello', 'basic', 'varargs+x86_64-sysv', 'varargs+aarch64', 'varargs+riscv64', 'struct-passing', 'struct-return-1',
-                 'switch', 'float-promote', 'initializer-replace', 'compound-literal', 'builtin-va-copy+x86_64-sysv', 'bitfield-load-signed',
-                 'char-sign+aarch64', 'cast-long-to-struct-pointer', 'for-loop', 'preprocess-macro-function', 'wchar-sign+riscv64']
+STAGE2_SKIP_PREFIX = ('preprocess-',)   # those are inputs for -E, not for the compiler proper
 
 
 def part_stage2(jobs):
@@ -464,16 +502,15 @@ def part_stage2(jobs):
             exes[tag] = exe
     n = 0
     for tag, exe in exes.items():
-        for t in STAGE2_INPUTS:
-            src = os.path.join(REPO, 'test', t + '.c')
-            if not os.path.exists(src):
-                R.fail('stage2/input-missing', src)
+        for src in sorted(glob.glob(os.path.join(REPO, 'test', '*.c'))):
+            t = os.path.basename(src)[:-2]
+            if t.startswith(STAGE2_SKIP_PREFIX):
                 continue
             targ = ['-t', t.split('+')[1]] if '+' in t else []
             text = open(src, 'rb').read()
             r1 = run([CPROC] + targ, inp=text)
             r2 = run([exe] + targ, inp=text, env=SAN_ENV)
-            R.check(r1[0] == 0 and r1[:2] == r2[:2], 'stage2/%s:%s' % (tag, t),
+            R.check(isinstance(r1[0], int) and 0 <= r1[0] <= 1 and r1 == r2, 'stage2/%s:%s' % (tag, t),
                     'rc %r vs %r; %s\nstderr: %s' % (r2[0], r1[0], first_diff(r1[1], r2[1]), r2[2].decode(errors='replace')[-1500:]))
             n += 1
         # the strongest input: the compiler's own (preprocessed) sources -> identical IL (fixed point)
@@ -489,11 +526,120 @@ def part_stage2(jobs):
         r2 = run([exe], inp=bad, env=SAN_ENV)
         R.check(r1[0] != 0 and r1 == r2, 'stage2/%s:diagnostic' % tag, '%r vs %r' % (r1, r2))
         n += 1
-    print('stage2: %d variants linked (%s), %d comparisons' % (len(exes), ' '.join(exes), n), flush=True)
+    say('stage2: %d variants linked (%s), %d comparisons' % (len(exes), ' '.join(exes), n))
 
 
 # ---------------------------------------------------------------------------
-PARTS = [('api', part_api), ('il', part_il), ('repo', part_repo), ('progs', part_progs), ('interop', part_interop), ('stage2', part_stage2)]
+MUTANTS = [  # (opcode, class key or None, replacement template): each must make 'il' or 'progs' fail
+    ('sar', None, '{0} >> ({1} & {M})'),
+    ('shl', None, '{0} << {1}'),
+    ('shr', None, '{0} >> ({1} & 31)'),
+    ('div', 'i', '{0} / {1}'),
+    ('rem', None, '{0} % {1}'),
+    ('udiv', None, '({U})(({S}){0} / ({S}){1})'),
+    ('urem', None, '({U})(({S}){0} % ({S}){1})'),
+    ('neg', None, '~{0}'),
+    ('csltw', None, '({U})({0} < {1})'),
+    ('cultl', None, '({U})((int64_t){0} < (int64_t){1})'),
+    ('csgel', None, '({U})({0} >= {1})'),
+    ('ceqw', None, '({U})({0} != {1})'),
+    ('loadsb', None, '({U})il2c_ld1({0})'),
+    ('loaduh', None, '({U})(int16_t)il2c_ld2({0})'),
+    ('loadw', None, '({U})il2c_ld4({0})'),
+    ('loadsw', None, '({U})il2c_ld4({0})'),
+    ('loaduw', None, '({U})(int32_t)il2c_ld4({0})'),
+    ('storeh', None, 'il2c_st4({1}, {0});'),
+    ('storeb', None, 'il2c_st2({1}, (uint16_t){0});'),
+    ('blit', None, '__builtin_memmove((char *){0}, (const char *){1}, {2});'),
+    ('extsw', None, '(uint64_t){0}'),
+    ('extuw', None, '(uint64_t)(int32_t){0}'),
+    ('extsb', None, '({U})(uint8_t){0}'),
+    ('extuh', None, '({U})(int16_t){0}'),
+    ('exts', None, '(double)(float)(int32_t){0}'),
+    ('stosi', None, '({U})(int32_t){0}'),
+    ('dtosi', None, '({U})(int64_t)({0} + 0.5)'),
+    ('dtoui', 'l', '(uint64_t)(int64_t){0}'),
+    ('stoui', 'w', '(uint32_t)(int32_t){0}'),
+    ('swtof', None, '({F}){0}'),
+    ('uwtof', None, '({F})(int32_t){0}'),
+    ('sltof', None, '({F})(double)(int64_t){0}'),
+    ('ultof', None, '({F})(int64_t){0}'),
+    ('cast', 'w', '(uint32_t){0}'),
+    ('cast', 'd', '(double){0}'),
+    ('copy', None, '{0} + 1'),
+    ('clts', None, '({U})(!({0} >= {1}))'),
+    ('cned', None, '({U})(({0} < {1}) | ({0} > {1}))'),
+    ('cuod', None, '({U})0'),
+    ('cos', None, '({U})1'),
+    ('cged', None, '({U})({0} > {1})'),
+    ('vaarg', 'd', '(double)__builtin_va_arg(*(va_list *)(char *){0}, uint64_t)'),
+    ('alloc16', None, '(uint64_t)__builtin_alloca_with_align({0}, 128)'),   # the gcc -O1 folding trap
+]
+
+
+def part_mutants(jobs):
+    """not a test of il2c but of this test-suite: every mutation of the semantics table must be noticed"""
+    global R
+    real = R
+    survivors = []
+
+    def attempt(label, apply, undo):
+        global R
+        apply()
+        R = Results()
+        R.quiet = True
+        try:
+            part_il(jobs)
+            if not R.nfail:
+                part_progs(jobs)
+            killed = R.nfail > 0
+        except Exception:
+            killed = True
+        finally:
+            undo()
+            shutil.rmtree(os.path.join(TMP, 'il'), ignore_errors=True)
+            shutil.rmtree(os.path.join(TMP, 'progs'), ignore_errors=True)
+            R = real
+        if not R.check(killed, 'mutants/' + label, 'mutation survived il+progs'):
+            survivors.append(label)
+
+    for op, key, tmpl in MUTANTS:
+        old = il2c.OPS[op]
+
+        def apply(op=op, key=key, tmpl=tmpl, old=old):
+            if key is None:
+                il2c.OPS[op] = (old[0], old[1], tmpl)
+            else:
+                d = dict(old[2])
+                assert key in d, (op, key)
+                d[key] = tmpl
+                il2c.OPS[op] = (old[0], old[1], d)
+
+        def undo(op=op, old=old):
+            il2c.OPS[op] = old
+        attempt('%s%s' % (op, ':' + key if key else ''), apply, undo)
+    # phi copies performed sequentially instead of in parallel
+    orig_edge = il2c._Func.edge
+
+    def seq_edge(self, src, dst_name, line):
+        dst = self.blocks[dst_name]
+        out = []
+        for p in dst.phis:
+            for l, v in p.args:
+                if l == src.name:
+                    out.append('t_%s = %s;' % (il2c.mangle(p.res[1:]), self.opnd(v, p.cls, p.line)))
+                    break
+        return ' '.join(out) + ' ' if out else ''
+    attempt('phi-sequential', lambda: setattr(il2c._Func, 'edge', seq_edge), lambda: setattr(il2c._Func, 'edge', orig_edge))
+    # every block treated as executed once (alloc in loops shares one object)
+    orig_once = il2c._Func.once
+    attempt('alloc-never-fresh', lambda: setattr(il2c._Func, 'once', lambda self, b: True), lambda: setattr(il2c._Func, 'once', orig_once))
+    say('mutants: %d mutations, %d survived %s' % (len(MUTANTS) + 2, len(survivors), survivors))
+
+
+# ---------------------------------------------------------------------------
+PARTS = [('api', part_api), ('il', part_il), ('repo', part_repo), ('progs', part_progs), ('interop', part_interop), ('stage2', part_stage2), ('mutants', part_mutants)]
+DEFAULT = ['api', 'il', 'repo', 'progs', 'interop', 'stage2']
 
 
 def main():
@@ -502,12 +648,13 @@ def main():
     ap.add_argument('parts', nargs='*')
     ap.add_argument('-j', type=int, default=min(16, os.cpu_count() or 1))
     ap.add_argument('--keep', action='store_true')
+    ap.add_argument('--tmp', help='work in this (existing, empty) directory; it is still removed at exit unless --keep')
     a = ap.parse_args()
-    want = a.parts or [n for n, _ in PARTS]
+    want = a.parts or DEFAULT
     for w in want:
         if w not in dict(PARTS):
             sys.exit('unknown part %s' % w)
-    TMP = tempfile.mkdtemp(prefix='il2c-test-', dir='/tmp')
+    TMP = a.tmp or tempfile.mkdtemp(prefix='il2c-test-', dir='/tmp')
     try:
         CPROC = build_cproc()
         for name, fn in PARTS:
